@@ -7,9 +7,9 @@ RL = ["%s.replace_leaves" % c for c in ("ProjectNode", "SelectRowsNode", "Select
 
 TABLE = {
     "C07": {
-        "mods": ["contracts.c06_builders"], "keys": RL,
+        "mods": ["contracts.c06_builders"], "keys": RL, "groups_extra": [(["contracts.c06_merge"], ["try_to_merge_ops"])], "replays": None,
         "explanation": ("hybrid: PROVED (pyvc, unbounded) -- every replace_leaves rebuilds its node from the replaced sources and EVERY stored constructor argument, binding the "
-                        "builder's real signature (10 node classes; NaturalJoinNode / TableDescription / SQLNode not yet under contract); BOUNDED -- the composition "
+                        "builder's real signature (10 node classes; NaturalJoinNode / TableDescription / SQLNode not yet under contract), and the extend merge that composition re-applies is meaning preserving (try_to_merge_ops lemma, shared with C06); BOUNDED -- the composition "
                         "routes, associativity and dom/cod are checked at run time on the real code over the enumerated scope"),
         "assumptions": ["builders abstracted at call sites as uninterpreted functions of all their arguments (their own bodies are under contract in C06)",
                         "source.replace_leaves(m) abstracted as the function replace_leaves(source, m) the per-class obligations define"],
@@ -83,7 +83,7 @@ def attach(rep, tier, seed):
         return
     run_proofs(rep, cfg["mods"], cfg["keys"], cfg.get("replays"))
     for (mods, keys) in cfg.get("groups_extra", []):  # separate registries: e.g. verified constructors vs their call-site abstraction
-        run_proofs(rep, mods, keys)
+        run_proofs(rep, mods, keys, {"try_to_merge_ops": "contracts.c06_native:replay_merge"} if "try_to_merge_ops" in keys else None)
     if cfg.get("explanation"):
         rep.explanation = cfg["explanation"]
     rep.assumptions += cfg.get("assumptions", [])
